@@ -1594,6 +1594,56 @@ fn directed_histories(out: &mut Out) {
     w.finish(out, "directed-histories", 40);
 }
 
+/// more history entries expire at once than any per-call eviction budget could hide (N in {257, 300, 600} unit transfers
+/// inside one window, written with same-invocation batches over a few ledgers); then ONE ledger gap of exactly the
+/// period: everything stored is stale, an amount equal to the whole limit fits exactly and one more unit does not.
+/// Variant "part": 40 younger entries stay in the window, exactly the N old ones leave together.
+fn directed_volume(out: &mut Out, lib: bool, nn: usize, part: bool) {
+    let a = if lib { 0 } else { 1 };
+    let start = 10u32;
+    let mut w = World::special(start, &[a], &[1], lib);
+    let via = Auth { via: true, mock: if a == 0 { std::vec![] } else { std::vec![a] } };
+    let one = me(a);
+    let sg = [0usize];
+    let period = 1000u32;
+    let young = if part { 40usize } else { 0 };
+    let limit = (nn + young) as i128;
+    w.l_install(out, &one, a, 0, limit, period);
+    let mut left = nn;
+    let mut i = 0usize;
+    while left > 0 {
+        let c = left.min(if i % 3 == 2 { 57 } else { 100 });
+        let cxs: std::vec::Vec<Cx> = (0..c).map(|j| Cx::transfer_t((i + j) % 2, 1)).collect();
+        w.enforce(out, Pol::L, &via, a, 0, &cxs, &sg);
+        left -= c; i += 1;
+        if left > 0 && i % 2 == 0 { w.advance(out, 1); }
+    }
+    // the window is full to the unit
+    w.can_enforce(out, Pol::L, a, 0, &Cx::transfer(if part { 41 } else { 1 }), &sg);
+    if part {
+        w.advance(out, 500);
+        let cxs: std::vec::Vec<Cx> = (0..young).map(|j| Cx::transfer_t(j % 2, 1)).collect();
+        w.enforce(out, Pol::L, &via, a, 0, &cxs, &sg);
+        w.advance(out, 499);                                        // one ledger before the old entries leave
+        w.can_enforce(out, Pol::L, a, 0, &Cx::transfer(1), &sg);
+        w.enforce(out, Pol::L, &one, a, 0, &[Cx::transfer(1)], &sg);
+        w.advance(out, 1);                                          // the nn old entries leave together, 40 stay
+    } else {
+        w.advance(out, period);                                     // ONE step: the youngest entry has just left
+    }
+    out.label(&format!("l_volume/n{}-{}-expired", nn, if part { "part" } else { "all" }));
+    let fit = nn as i128;
+    w.can_enforce(out, Pol::L, a, 0, &Cx::transfer(fit + 1), &sg);
+    w.enforce(out, Pol::L, &one, a, 0, &[Cx::transfer(fit + 1)], &sg);
+    w.can_enforce(out, Pol::L, a, 0, &Cx::transfer(fit), &sg);
+    w.enforce(out, Pol::L, &one, a, 0, &[Cx::transfer_t(1, fit)], &sg); // fits exactly; the getters follow
+    w.can_enforce(out, Pol::L, a, 0, &Cx::transfer(1), &sg);
+    w.enforce(out, Pol::L, &one, a, 0, &[Cx::transfer(1)], &sg);
+    w.can_enforce(out, Pol::L, a, 0, &Cx::transfer(0), &sg);
+    w.enforce(out, Pol::L, &one, a, 0, &[Cx::transfer(0)], &sg);
+    w.finish(out, "volume", start);
+}
+
 /// thorough tier: every (token contract, from, to) over the special parties, one unit each, against ONE budget
 fn enum_parties(out: &mut Out) {
     let ps = [A::Addr, A::Acct(0), A::Acct(1), A::Acct(2), A::Pol, A::Tok(0), A::Muxed(1), A::G];
@@ -1662,6 +1712,8 @@ fn main() {
     catalogue_signers(&mut out);
     directed_histories(&mut out);
     real_account(&mut out);
+    // more than 256 history entries expiring at once (both entry paths)
+    for lib in [false, true] { for nn in [257usize, 300, 600] { for part in [false, true] { directed_volume(&mut out, lib, nn, part); } } }
     for (i, h) in HOSTS.iter().enumerate() { persistence(&mut out, &mut rng, *h, 1 + 1000 * i as u32); }
     // history bound (MAX_HISTORY_ENTRIES), reached with batches
     let nb = if thorough { 6 } else { 2 } * scale;
